@@ -28,13 +28,15 @@ ThreadsDef == 0 .. NT - 1
 Nodes == 1 .. NNodes
 HEAD == <<"head", 0>>
 NEXT(n) == <<"next", n>>
-LocsDef == {HEAD} \cup {NEXT(n) : n \in Nodes}
+KEYL(n) == <<"key", n>>                \* the key field of a node: plain, written by the constructor, read by every traversal
+LocsDef == {HEAD} \cup {NEXT(n) : n \in Nodes} \cup {KEYL(n) : n \in Nodes}
+           \cup (IF Weak THEN {RT(KEYL(n), u) : n \in Nodes, u \in ThreadsDef} ELSE {})
 Lnk(n, m) == 2 * n + m
 Ptr(l) == l \div 2
 Mark(l) == l % 2
 \* initial list: the keys of Keys0 (a sequence, ascending) in nodes 1 .. Len(Keys0)
 InitValDef(x) == IF x = HEAD THEN (IF Len(Keys0) > 0 THEN Lnk(1, 0) ELSE 0)
-                 ELSE IF x[2] < Len(Keys0) THEN Lnk(x[2] + 1, 0) ELSE 0
+                 ELSE IF x[1] = "next" /\ x[2] < Len(Keys0) THEN Lnk(x[2] + 1, 0) ELSE 0
 
 VARIABLES pc, loc, lin, budget, nst, inc, keyof, g, bad, last
 vars == <<pc, loc, lin, budget, nst, inc, keyof, g, bad, last, memvars>>
@@ -95,10 +97,11 @@ StartEmplace(t) ==
        /\ loc' = [loc EXCEPT ![t] = [L0 EXCEPT !.op = "emplace", !.key = k, !.node = n]]
        /\ lin' = MonCall(lin, t, "emplace", k, k)
        /\ Acc(t, "call", "emplace", k, 1)
+       /\ FreshWr(t, KEYL(n), k)            \* new node(key): the constructor writes the key (fresh memory, not yet published)
   /\ budget' = [budget EXCEPT ![t] = @ - 1]
   /\ g' = [g EXCEPT ![t] = G0]
   /\ Goto(t, "f_start")
-  /\ UNCHANGED <<bad, memvars>>
+  /\ UNCHANGED bad
 
 \* ---- find(key, info) ---------------------------------------------------------------------------
 \* retry: info.prev = start; info.save = start_guard  (no access)
@@ -117,10 +120,12 @@ f_ld0(t) == /\ pc[t] = "f_ld0"
                       THEN /\ loc' = [loc EXCEPT ![t].start = HEAD] /\ g' = [g EXCEPT ![t].sg = NoG] /\ Goto(t, "f_start")
                       ELSE /\ loc' = [loc EXCEPT ![t].next = v] /\ Goto(t, "f_acq") /\ UNCHANGED g
             /\ UNCHANGED <<lin, budget, nst, inc, keyof>>
-\* info.cur.acquire_if_equal(*info.prev, info.next)
+\* info.cur.acquire_if_equal(*info.prev, info.next).  Under weak memory a guard acquisition reads the LATEST message: a real reclaimer
+\* (hazard pointer: publish, seq_cst fence, re-read; epochs: fenced region entry) never settles on a value that was replaced before the
+\* node's retirement became visible to it (see MSQueue); all other loads may be stale as far as their order allows
 f_acq(t) == /\ pc[t] = "f_acq"
             /\ TouchCell(t, loc[t].prev, "find reads a link of a destroyed node")
-            /\ \E i \in Readable(t, loc[t].prev, Ord["f_acq"]) :
+            /\ \E i \in {Last(loc[t].prev)} :
                  LET v == ValAt(loc[t].prev, i) IN
                  /\ Load(t, loc[t].prev, Ord["f_acq"], i)
                  /\ Acc(t, "ld", "f_acq", v, 1)
@@ -170,13 +175,14 @@ f_chk(t) == /\ pc[t] = "f_chk"
 \* compare keys (plain read of the immutable key through the guard); advance or stop
 f_cmp(t) == /\ pc[t] = "f_cmp"
             /\ Touch(g[t].cur, "find reads the key of a destroyed node")
+            /\ PlainRd(t, KEYL(g[t].cur.n))
             /\ LET ck == keyof[g[t].cur.n] IN
                IF ck >= loc[t].key
                  THEN /\ loc' = [loc EXCEPT ![t].found = (ck = loc[t].key)] /\ Goto(t, "f_done") /\ UNCHANGED g
                  ELSE /\ loc' = [loc EXCEPT ![t].prev = NEXT(g[t].cur.n)]
                       /\ g' = [g EXCEPT ![t].save = g[t].cur, ![t].cur = g[t].save]      \* std::swap(info.save, info.cur)
                       /\ Goto(t, "f_acq")
-            /\ UNCHANGED <<lin, budget, nst, inc, keyof, last, memvars>>
+            /\ UNCHANGED <<lin, budget, nst, inc, keyof, last>>
 \* find returned: dispatch on the calling operation
 f_done(t) ==
   /\ pc[t] = "f_done"
@@ -247,7 +253,7 @@ StartTraversal(t) ==
   /\ Goto(t, "b_acq") /\ Acc(t, "call", "begin", 0, 1)
   /\ UNCHANGED <<nst, inc, keyof, bad, memvars>>
 b_acq(t) == /\ pc[t] = "b_acq"
-            /\ \E i \in Readable(t, HEAD, Ord["b_acq"]) :
+            /\ \E i \in {Last(HEAD)} :
                  /\ Load(t, HEAD, Ord["b_acq"], i)
                  /\ Acc(t, "ld", "b_acq", ValAt(HEAD, i), 1)
                  /\ g' = [g EXCEPT ![t].cur = GuardOf(Ptr(ValAt(HEAD, i)))]
@@ -277,7 +283,7 @@ n_ld(t) == /\ pc[t] = "n_ld"
 n_acq(t) == /\ pc[t] = "n_acq"
             /\ Touch(g[t].cur, "iterator reads next of a destroyed node")
             /\ LET x == NEXT(g[t].cur.n) IN
-               \E i \in Readable(t, x, Ord["n_acq"]) :
+               \E i \in {Last(x)} :
                   LET v == ValAt(x, i) IN
                   /\ Load(t, x, Ord["n_acq"], i)
                   /\ Acc(t, "ld", "n_acq", v, 1)
